@@ -343,21 +343,49 @@ class QueryPlanner:
                 node.args = [Constant(0), Constant(0)]
                 node.op = '='
 
-        query_traversal(query2.where, replace_functions)
+        def replace_in_conjuncts(node):
+            # a condition with user function can be skipped only if it is a top-level conjunct of WHERE:
+            # under NOT or OR the condition can't be replaced by a constant
+            if isinstance(node, BinaryOperation) and node.op.lower() == 'and':
+                for arg in node.args:
+                    replace_in_conjuncts(arg)
+            else:
+                replace_functions(node)
+
+        filter_in_subquery = False
+        if query2.where is not None:
+            replace_in_conjuncts(query2.where)
+
+            # is user function used somewhere else in conditions?
+            remained = []
+
+            def find_functions(node, **kwargs):
+                if isinstance(node, Function) and node.namespace is not None:
+                    remained.append(node)
+
+            query_traversal(query2.where, find_functions)
+            if len(remained) > 0:
+                # can't split condition: fetch all and filter data in subquery
+                skipped_conditions.append(query2.where)
+                query2.where = None
+                filter_in_subquery = True
 
         query2.targets = [Star()]
 
         # don't do aggregate
         query2.having = None
 
-        if query.group_by is not None:
-            # if aggregation exists, do order and limit in subquery
+        if query.group_by is not None or query.distinct or filter_in_subquery:
+            # if aggregation exists (or data can't be filtered in integration), do order, limit and offset in subquery
             query2.group_by = None
+            query2.distinct = False
             query2.order_by = None
             query2.limit = None
+            query2.offset = None
         else:
             query.order_by = None
             query.limit = None
+            query.offset = None
 
         # if all conditions were executed - clear it
         if len(skipped_conditions) == 0:
